@@ -173,7 +173,8 @@ theorem findLast_spec (fs : List FieldSchema) (vals : List CVal) (ht : TypedFiel
 
 /-- `assignField` never reaches the explicit `panic`. -/
 theorem assignField_no_panic (i : Nat) (k : GoKind) (v : CVal) : (assignField i k v).isPanic = false := by
-  cases k <;> cases v <;> simp [assignField, convertTo, sameKind, Res.isPanic]
+  cases k <;> cases v <;> simp [assignField, convertTo, sameKind, Res.isPanic] <;>
+    cases Gen.convertGuard <;> simp
 
 /-- `fill` cannot panic when the initial values cover the fields. -/
 theorem fill_no_panic : ∀ (fs : List FieldSchema) (zs its : List CVal) (i : Nat),
